@@ -1,16 +1,33 @@
 """C42 — compilation is deterministic (structural clause: no hash-order dependent iteration reaches the output)."""
 import ast
 
-from ..core import Rule, AnalysisError
-from ..rules import det
+from ..core import Rule, AnalysisError, node_src
+from ..rules import det, sC42
 from ..engine.pyindex import walk_no_nested
 
 ID = 'C42'
-TECHNIQUE = 'order-taint dataflow (sets and containers filled by iterating sets, one-level function summaries) to order-sensitive sinks; id()/hash() never flow into emitted names; cache keys cover what the cached value depends on'
-DECIDES = ('D1: in Cython/Compiler, Build/Dependencies.py, Cache.py, Inline.py, Utils.py no set/frozenset (or list/tuple built by iterating one, also through one level of calls) is iterated into an '
-           'order-sensitive effect (emitting code, appending, joining, list()/tuple(), yield) without sorted(); D2: id()/hash() of objects never flows into strings; '
-           'D3: module-level memo caches whose cached value depends on a scope argument include it in the key.')
-NOT_DECIDED = 'nondeterminism from file-system listing order, parallel build scheduling and object addresses used as set-iteration order of non-string objects.'
+TECHNIQUE = ('order-taint dataflow (sets and containers filled by iterating sets, one-level function summaries, sets held by other objects, sets handed to iterating callees, dicts filled from sets) '
+             'to order-sensitive sinks; id()/hash()/clock/pid/random values never flow into emitted text or sort keys; memo keys cover what the memoised value depends on; '
+             'no class-level mutable state mutated through instances; typestate of the compilation Context')
+DECIDES = ('D1/D1b: in Cython/Compiler, Build/Dependencies.py, Cache.py, Inline.py, Utils.py no set/frozenset (or list/tuple/dict built by iterating one, also through one level of calls, also when the set is an '
+           'attribute of another object or is handed to a callee that iterates its parameter) is iterated into an order-sensitive effect (emitting code, appending, joining, list()/tuple(), yield, yield from) without sorted(); '
+           'D2: id()/hash() of objects never flows into strings and is never a sort key; D4: clock, process id and random sources never reach code-writer calls or returned strings; '
+           'D3/D3g: every memo container whose cached value depends on a parameter includes it in the key (whole mapping, not single entries); '
+           'D5: no class-level mutable container is mutated through instances without being rebound per instance; D6: compile_multiple never reuses a Context for a second source.')
+NOT_DECIDED = ('nondeterminism from file-system listing order (it changes the order of module lists, not a generated file), parallel build scheduling, object addresses used as set-iteration order where all '
+               'consumers are order-insensitive (exempted case by case), and state shared through module-level globals other than memo containers.')
+
+MUTATIONS = [
+    # patches and outcomes under /verif/mutants/C42/<name>/
+    ('Cython/Compiler/*.py, Cython/Build/Dependencies.py', 'cleanup-temps-unsorted, dict-helpers-unsorted, switch-chars-unsorted, cimports-unsorted, incdirs-unsorted, normalize-unsorted, requires-unsorted, privates-set-join', 'D1'),
+    ('Cython/Compiler/*.py', 'subscopes-unsorted (yield from), types-imported-unsorted (set of another object), fused-mapper-set (set handed to an iterating callee), helpers-via-dict (dict filled from a set)', 'D1b'),
+    ('Cython/Compiler/Code.py, ModuleNode.py', 'label-with-id (.format), label-id-concat, const-name-hash, sort-by-id', 'D2'),
+    ('Cython/Compiler/Code.py, Symtab.py', 'header-timestamp, header-pid, tempname-random', 'D4'),
+    ('Cython/Compiler/PyrexTypes.py, Code.py', 'typeid-cache-no-scope, utilcache-no-context, specialize-cache-name-only', 'D3 / D3g'),
+    ('Cython/Compiler/Symtab.py', 'idcounters-class-level', 'D5'),
+    ('Cython/Compiler/Main.py', 'context-reused', 'D6'),
+    ('*', 'silent: p-sorted-key, p-list-sort, p-membership-only, p-typeid-key-reordered, p-id-in-repr, p-context-reset-else, p-fused-allbuf-set, p-pid-tmpfile, p-glob-unsorted', ''),
+]
 
 _B = 'benign: '
 EXEMPT = {
@@ -19,10 +36,17 @@ EXEMPT = {
     ('D1', 'ExprNodes.infer_sequence_item_type:item_types'): _B + 'the set of item types is reduced with reduce_spanning_types, a lattice join (commutative, associative)',
     ('D1', 'ExprNodes.MergedSequenceNode.calculate_constant_result:result'): _B + 'flow-insensitive alias: `result` is a list when tuple()/iteration happens; it is rebound to a set only in the branch that produces a set constant',
     ('D1', 'ExprNodes.MergedSequenceNode.compile_time_value:result'): _B + 'same as calculate_constant_result',
-    ('D1', 'FlowControl.ControlFlow.initialize:self.blocks'): _B + 'assigns internal bit positions to assignments; the bit numbering is an internal identifier of the dataflow solver, results are mapped back to statements',
+    ('D1', 'FlowControl.ControlFlow.initialize:self.blocks:for'): _B + 'assigns internal bit positions to assignments; the bit numbering is an internal identifier of the dataflow solver, results are mapped back to statements',
     ('D1', 'Options.CompilationOptions.__init__:unknown_directives'): _B + 'only the wording of a ValueError message for invalid directives, no generated code',
     ('D1', 'Options.CompilationOptions.__init__:unknown_options'): _B + 'only the wording of a ValueError message for invalid options, no generated code',
     ('D1', 'PyrexTypes.widest_cpp_type:common_bases'): _B + 'feeds reduce(set.union, ...) and a candidate list that is only used when it has exactly one element',
+    ('D1b', 'FlowControl.GV.render:self.flow.blocks'): _B + 'GV renders the control-flow graph as a graphviz .dot file (directive control_flow.dot_output, a debugging aid); it is not part of the generated C',
+    ('D1b', 'FlowControl.check_definitions:flow.blocks'): _B + 'fills entry.cf_assignments / cf_references per entry; every consumer is order-insensitive: any()/existence tests with early return, per-element flag updates, '
+                                                                  'set building in type inference and the spanning-type join (commutative, associative)',
+    ('D3g', 'Code.sub_tempita:__cache:file,name'): _B + 'file/name only label the compiled Template object for Tempita error messages; the substitution result depends on the template text (the key) and the context passed at call time',
+    ('D3g', 'Symtab.ModuleScope.declare_defaults_c_class:self._cached_defaults_c_class_entries:pos'): _B + 'pos is only the source position recorded for diagnostics of the synthesized defaults class; the per-module memo is keyed by the component types',
+    ('D5', 'Code.UtilityCodeBase._utility_cache'): _B + 'process-wide memo of parsed utility FILES keyed by path: its value is a function of the file content, identical for every module compiled in the process',
+    ('D5', 'Options.ShouldBeFromDirective.known_directives'): _B + 'registry filled by the module-level ShouldBeFromDirective(...) instances while Options.py is imported, never during a compilation',
     ('D1', 'Symtab.Scope.lookup_operator:set(method_alternatives+function_alternatives)'): _B + 'de-duplication before PyrexTypes.best_match, which scores every alternative and reports ambiguity instead of picking by position',
 }
 
@@ -45,12 +69,42 @@ def rule_D2(ctx):
                             parent_fmt = True
                         if isinstance(p, ast.BinOp) and isinstance(p.op, ast.Mod) and any(x is n for x in ast.walk(p.right)) and isinstance(p.left, ast.Constant) and isinstance(p.left.value, str):
                             parent_fmt = True
-                        if isinstance(p, ast.Call) and isinstance(p.func, ast.Name) and p.func.id in ('str', 'repr', 'hex') and any(x is n for x in ast.walk(p)):
+                        if isinstance(p, ast.Call) and isinstance(p.func, ast.Name) and p.func.id in ('str', 'repr', 'hex', 'format', 'oct', 'bin') and any(x is n for x in ast.walk(p)):
                             parent_fmt = True
+                        if isinstance(p, ast.Call) and isinstance(p.func, ast.Attribute) and p.func.attr in ('format', 'format_map', 'join') and \
+                                any(x is n for a in list(p.args) + [k.value for k in p.keywords] for x in ast.walk(a)):
+                            parent_fmt = True
+                        if isinstance(p, ast.BinOp) and isinstance(p.op, ast.Mod) and any(x is n for x in ast.walk(p.right)) and not isinstance(p.left, ast.Constant) \
+                                and not any(isinstance(y, (ast.Constant,)) and isinstance(y.value, (int, float)) for y in [p.left]):
+                            # `fmt % (..., id(x))` with a non-literal format: strings only when the left operand is not numeric
+                            if isinstance(p.left, (ast.Name, ast.Attribute)) and ('fmt' in ast.unparse(p.left).lower() or 'template' in ast.unparse(p.left).lower() or 'format' in ast.unparse(p.left).lower()):
+                                parent_fmt = True
                     key = '%s.%s:%s' % (m.short, qn, ast.unparse(n))
                     r.inst(key, sample=key)
                     if parent_fmt and not (fn.name in ('__repr__', '__str__', 'dump', 'dump_pos', 'print_call_chain') or 'debug' in fn.name.lower()):
                         r.violate(key, m.rel, n.lineno, '%s of an object is formatted into a string in %s.%s: memory addresses / salted hashes differ between runs' % (n.func.id, m.short, qn))
+    # sorting by address / salted hash:  sorted(xs, key=id), xs.sort(key=hash), min/max(..., key=lambda x: id(x))
+    for m in ix.modules.values():
+        if not (m.name.startswith('Cython.Compiler') or m.short in ('Dependencies', 'Cache', 'Utils')):
+            continue
+        for qn, owner, fn in ix.functions_of(m):
+            for n in walk_no_nested(fn):
+                if not isinstance(n, ast.Call):
+                    continue
+                fname = n.func.id if isinstance(n.func, ast.Name) else n.func.attr if isinstance(n.func, ast.Attribute) else None
+                if fname not in ('sorted', 'sort', 'min', 'max', 'groupby', 'nsmallest', 'nlargest'):
+                    continue
+                for k in n.keywords:
+                    if k.arg != 'key':
+                        continue
+                    v = k.value
+                    by_addr = isinstance(v, ast.Name) and v.id in ('id', 'hash')
+                    if isinstance(v, ast.Lambda):
+                        by_addr = any(isinstance(x, ast.Call) and isinstance(x.func, ast.Name) and x.func.id in ('id', 'hash') for x in ast.walk(v.body))
+                    key = '%s.%s:%s(key=%s)' % (m.short, qn, fname, ast.unparse(v)[:30])
+                    if by_addr:
+                        r.inst(key, sample=key)
+                        r.violate(key, m.rel, n.lineno, '%s.%s orders elements by id()/hash() (%s): memory addresses and salted hashes differ between runs, so does the resulting order' % (m.short, qn, node_src(n, 60)))
     if n_calls == 0:
         r.inst('none', sample='no id()/hash() calls in the compiler', nontrivial=False)
     return r
@@ -93,4 +147,4 @@ def rule_D3(ctx):
 
 
 def run(ctx):
-    return [det.rule_D1(ctx), rule_D2(ctx), rule_D3(ctx)]
+    return [sC42.rule_D1(ctx), sC42.rule_D1b(ctx), rule_D2(ctx), rule_D3(ctx), sC42.rule_D3g(ctx), sC42.rule_D4(ctx), sC42.rule_D5(ctx), sC42.rule_D6(ctx)]
